@@ -109,6 +109,7 @@ type Exec struct {
 	merges     int
 	ivCache    map[int]ival
 	typeObjs   map[string]*Object
+	hashApps   []hashApp
 	varRange   map[string]ival
 	funcs      map[string]bool
 }
@@ -337,6 +338,13 @@ func (x *Exec) check(c *smt.Term, kind, msg string) {
 		}
 		if r == smt.Unsat {
 			break
+		}
+		// prefer a witness whose free input bytes are pairwise distinct: replays against the
+		// real code are then more likely to make a wrong-data effect observable
+		if d := x.distinctInputs(); d != nil {
+			if m2, r2 := x.satModel(x.st.BAnd(blocked, d)); r2 == smt.Sat {
+				model = m2
+			}
 		}
 		v := Violation{Kind: kind, Msg: msg, Pos: x.posStr(), Model: model, Harness: x.h.Name, Stack: x.stackStrs()}
 		kf := x.h.matchKnown(&v)
